@@ -90,6 +90,9 @@ type Rec struct {
 	maxSamples int
 }
 
+// NewRecForAux returns an empty recorder for aux modes that reuse worker code.
+func NewRecForAux() *Rec { return newRec() }
+
 func newRec() *Rec {
 	return &Rec{Cover: map[uint64]int{}, Counters: map[string]int64{}, Maxes: map[string]int64{}, Sets: map[string]map[string]bool{}, maxSamples: 4}
 }
